@@ -97,7 +97,7 @@ class Blocks(Part):
     timeout = 300.0
 
     def describe(self, tier):
-        return (f'{len(BLOCKS)} block classes x their regular region (4 generic values per parameter, full tensor grid) and '
+        return (f'{len(BLOCKS)} block classes x their regular region (4 generic values per parameter + the unit value 1.0, full tensor grid) and '
                 f'documented bypass regions x 7 complex frequencies; steady state at 3 input levels (0 for integrating '
                 f'blocks)' + ('; 5-value refinement of the grid' if tier != 'quick' else ''))
 
